@@ -1,4 +1,5 @@
 //! lv_wire: client/server encodings (C16, C17).
+mod http;
 mod intcol;
 mod rows;
 mod xor;
@@ -8,5 +9,6 @@ fn main() {
     v.extend(xor::suites());
     v.extend(intcol::suites());
     v.extend(rows::suites());
+    v.extend(http::suites());
     lvharness::cli_main(v);
 }
